@@ -234,7 +234,7 @@ class Result:
     def violation(self, clause, detail, replay_obj):
         os.makedirs(os.path.join(REPLAYS, self.pid), exist_ok=True)
         n = len(self.violations) + 1
-        path = os.path.join(REPLAYS, self.pid, "%s-%s-%d-%d.json" % (self.pid, self.tier, self.seed, n))
+        path = os.path.join(REPLAYS, self.pid, "%s-%s-%d-%d-%d.json" % (self.pid, self.tier, self.seed, os.getpid(), n))
         with open(path, "w") as f:
             json.dump(dict(property=self.pid, clause=clause, detail=detail, replay=replay_obj), f, indent=1, default=str)
         self.violations.append(dict(clause=clause, detail=detail, replay=path))
